@@ -753,15 +753,16 @@ func (c *conn) dispatch(p *pkt, key []byte, cid uint32, req *Req) {
 				cid := binary.BigEndian.Uint32(p.extras[4:])
 				hi = 0
 				if ch, ok := vb.CollHigh[cid]; ok {
-					hi = ch
-				}
-				for _, it := range vb.Items {
-					if it.Cid == cid && it.SeqNo > hi {
-						hi = it.SeqNo
+					hi = ch // scripted
+				} else {
+					for _, it := range vb.Items {
+						if it.Cid == cid && it.SeqNo > hi {
+							hi = it.SeqNo
+						}
 					}
-				}
-				if len(vb.Items) == 0 && vb.CollHigh == nil {
-					hi = vb.High // synthetic vBuckets without items: everything lives in the queried collection
+					if len(vb.Items) == 0 {
+						hi = vb.High // synthetic vBuckets without items: everything lives in the queried collection
+					}
 				}
 			}
 			out = append(out, u16(uint16(i))...)
